@@ -104,6 +104,7 @@ def make(seq=0, transport=True, has_event=False, raise_at=(), reset_flag=False):
         return uart.ZbossNcpProtocol(cfg, api)
     p = lp.run_until_complete(mk())
     task = None
+    setup_raised = None
     mode = int(has_event)          # 0 none, 1 send waiting for its ACK, 2 send ended by its ACK, 3 send ended by expiry
     if mode == 2 and (seq == 0 or not transport):
         mode = 1
@@ -120,7 +121,10 @@ def make(seq=0, transport=True, has_event=False, raise_at=(), reset_flag=False):
             target = {1: 0, 2: 1, 3: 2}[seq]     # the send's own ACK will advance the number to `seq`
         cur = 0
         for _ in range(target):                   # 0 -> 1 -> 2 -> 3 by matching ACKs (no send is waiting yet)
-            p.data_received(_ack_bytes(cur))
+            try:
+                p.data_received(_ack_bytes(cur))
+            except BaseException as ex:  # noqa: nothing may escape the receive entry point - reported by `session`
+                setup_raised = type(ex).__name__
             cur = cur % 3 + 1
         if transport or mode:
             p.connection_made(RecTransport(log))
@@ -157,6 +161,7 @@ def make(seq=0, transport=True, has_event=False, raise_at=(), reset_flag=False):
     api.proto = p
     p._verif_api = api
     p._verif_task = task
+    p._verif_setup_raised = setup_raised
     if reset_flag:
         # what `ZBOSS.reset()` does before it sends the reset request (public property): the receive path and `send`
         # do not depend on it
@@ -187,7 +192,7 @@ def session(chunks, seq=0, transport=True, has_event=False, raise_at=(), reset_f
         reset_flag = auto_reset_flag(chunks)
     p, log = make(seq, transport, has_event, raise_at, reset_flag)
     outs = []
-    raised = None
+    raised = getattr(p, "_verif_setup_raised", None)     # an acknowledgement fed while reaching the link state escaped
     for c in chunks:
         mark = len(log)
         try:
